@@ -360,7 +360,9 @@ static void mode_m4(vh::Ctx& ctx) {
 
 int main(int argc, char** argv) {
   vh::Ctx ctx = vh::parse_args(argc, argv);
-  vh::cpu_budget(3600);
+  // CPU-time watchdog (process time, i.e. summed over all threads): per trial / schedule / operation where cases are short,
+  // one large budget for the two stress modes whose threads legitimately burn hours of CPU time in the thorough tier
+  if (ctx.mode == "m3b" || ctx.mode == "m4") vh::cpu_budget(ctx.thorough ? 400000 : 40000); else vh::st().case_budget = 1200;
   if (ctx.mode == "m1child") return mode_m1child(ctx);
   if (!ctx.replay.empty()) {
     // replay: m3 cases are deterministic; schedule / free-running cases are re-run as recorded
